@@ -223,6 +223,71 @@ fn main() {
             }
         }
     }
+    // commit(true) of an in-memory zone: published SOA serial `old`; the writer either leaves the
+    // SOA alone or writes one with serial `z` (other fields unchanged); observed: the serial a
+    // reader sees afterwards
+    {
+        use domain::zonetree::ZoneBuilder;
+        use domain::zonetree::{Answer, AnswerContent};
+        let rt = tokio::runtime::Builder::new_current_thread().build().unwrap();
+        let apex: StoredName = Name::from_str("example.").unwrap();
+        let soa_rrset = |serial: u32| {
+            let mut rrset = Rrset::new(Rtype::SOA, Ttl::from_secs(3600));
+            rrset.push_data(ZoneRecordData::Soa(Soa::new(
+                Name::from_str("ns.example.").unwrap(), Name::from_str("admin.example.").unwrap(), Serial(serial),
+                Ttl::from_secs(7200), Ttl::from_secs(900), Ttl::from_secs(86400), Ttl::from_secs(300))));
+            SharedRrset::new(rrset)
+        };
+        let mut cases: Vec<(u32, Option<u32>)> = vec![(0xFFFF_FFFF, None), (0xFFFF_FFFE, None), (0, None), (0x7FFF_FFFF, None),
+            (0xFFFF_FFF0, Some(5)), (5, Some(0xFFFF_FFF0)), (7, Some(7)), (0xFFFF_FFFF, Some(0)), (0xFFFF_FFFF, Some(0xFFFF_FFFF)),
+            (0, Some(0x8000_0000)), (0x8000_0000, Some(0)), (10, Some(9)), (10, Some(11))];
+        for _ in 0..(n_pairs / 200) {
+            let (q, z) = pair(&mut r);
+            cases.push((q, if r.below(3) == 0 { None } else { Some(z) }));
+        }
+        for (old, written) in cases {
+            idx += 1;
+            if !out.wants(idx) { continue; }
+            let c = format!("commit {} {} {}", old, if written.is_some() { 1 } else { 0 }, written.unwrap_or(0));
+            out.begin(&c);
+            let apex2 = apex.clone();
+            let got = catch(std::panic::AssertUnwindSafe(|| {
+                let mut b = ZoneBuilder::new(apex2.clone(), Class::IN);
+                b.insert_rrset(&apex2, soa_rrset(old)).map_err(|_| "insert".to_string())?;
+                let zone = b.build();
+                rt.block_on(async {
+                    let mut w = zone.write().await;
+                    let node = w.open(false).await.map_err(|e| e.to_string())?;
+                    if let Some(z) = written { node.update_rrset(soa_rrset(z)).await.map_err(|e| e.to_string())?; }
+                    drop(node);
+                    w.commit(true).await.map_err(|e| e.to_string())?;
+                    Ok::<(), String>(())
+                })?;
+                let ans: Answer = zone.read().query(apex2.clone(), Rtype::SOA).map_err(|_| "out of zone".to_string())?;
+                match ans.content() {
+                    AnswerContent::Data(rrset) => match rrset.first().map(|rr| rr.data().clone()) {
+                        Some(ZoneRecordData::Soa(soa)) => Ok(soa.serial().0),
+                        _ => Err("no SOA data".to_string()),
+                    },
+                    _ => Err("SOA query not answered with data".to_string()),
+                }
+            }));
+            match got {
+                Ok(Ok(v)) => {
+                    out.case(&c, &format!("Ok {}", v), written.is_none() || written == Some(old), "commit");
+                    match written {
+                        // untouched (or rewritten unchanged): the next serial, strictly newer, also across the wrap
+                        None => { out.check(v == old.wrapping_add(1) && Serial(old) < Serial(v), "commit_bump_not_next_serial", &c, &format!("{}", v)); }
+                        Some(z) if z == old => { out.check(v == old.wrapping_add(1), "commit_bump_not_next_serial", &c, &format!("{}", v)); }
+                        // the writer's own SOA is what gets published, wherever the two serials sit
+                        Some(z) => { out.check(v == z, "commit_discards_written_soa", &c, &format!("{}", v)); }
+                    }
+                }
+                Ok(Err(e)) => { out.case(&c, "Err", false, "commit"); out.check(false, "commit_failed", &c, &e); }
+                Err(e) => { out.case(&c, "Panic", false, "commit"); out.check(false, "commit_panics", &c, &e); }
+            }
+        }
+    }
     // Version::next (zonetree/in_memory/versioned.rs, through the cfg(domain_verif) hook; a
     // Version of any value is obtained through its serde representation)
     {
